@@ -377,6 +377,8 @@ func runC16(p *P, r *R) {
 	borrow(p, r, "C13", runC13, map[string]string{"R13.4": "R16.5"}, func(o Ob) bool { return constructHas(o, "Session.manager", "Session.listener") })
 	// R16.6 pools that the hot restart did not swap keep being healed (shared with C17 R17.2)
 	watcherEpochTest(p, r, "R16.6")
+	// R16.8 after the hand-over the watchers follow the new pools (shared with C17 R17.5)
+	watcherFollowsTable(p, r, "R16.8")
 	_ = types.Typ
 }
 
